@@ -98,6 +98,7 @@ type pipeViol struct {
 
 type pipeResult struct {
 	Runs, Pipelines int
+	Cut             int // pipelines not run after three timeouts in the task
 	Viol            []pipeViol
 	Samples         []string
 }
@@ -109,7 +110,12 @@ func pipeWorker(tb []byte, progress func()) []byte {
 	rt.CurMode = rt.Free
 	var res pipeResult
 	var rec func(cur []int)
+	timeouts := 0 // every unanswered command costs h.Patience: the task is cut after three
 	runOne := func(idxs []int) {
+		if timeouts >= 3 {
+			res.Cut++
+			return
+		}
 		var cmds [][]string
 		var stream []byte
 		for _, i := range idxs {
@@ -124,6 +130,9 @@ func pipeWorker(tb []byte, progress func()) []byte {
 			splits = append(splits, c)
 		}
 		for _, cut := range splits {
+			if timeouts >= 3 {
+				break
+			}
 			res.Runs++
 			mgr := h.NewManager()
 			conn := h.NewConn("p")
@@ -143,6 +152,10 @@ func pipeWorker(tb []byte, progress func()) []byte {
 				raw, v, st := conn.TakeReply(5 * time.Second)
 				name := strings.ToLower(c[0])
 				if st != "ok" {
+					if st == "timeout" {
+						timeouts++
+						progress()
+					}
 					bad("pipeline-"+strings.SplitN(st, ":", 2)[0], name, fmt.Sprintf("pipeline %q split at %d: reply %d/%d: %s (%q)", cmds, cut, ci+1, len(cmds), st, raw))
 					ok = false
 					break
@@ -382,13 +395,13 @@ func runC03() int {
 	if tier == "thorough" {
 		plen = 4
 	}
-	p := &pool.Pool{Handler: "c03pipe", N: nWorkers(), Timeout: 60 * time.Second, MemMB: 3072}
+	p := &pool.Pool{Handler: "c03pipe", N: nWorkers(), Timeout: 4 * time.Minute, MemMB: 3072}
 	var tasks [][]byte
 	for i := range pipeAlphabet {
 		b, _ := json.Marshal(pipeTask{First: i, Len: plen})
 		tasks = append(tasks, b)
 	}
-	runs, pipes := 0, 0
+	runs, pipes, pipesCut := 0, 0, 0
 	var samples []string
 	p.Map(tasks, func(tb, out []byte, crash *pool.Crash) [][]byte {
 		if crash != nil {
@@ -403,6 +416,7 @@ func runC03() int {
 		json.Unmarshal(out, &r)
 		runs += r.Runs
 		pipes += r.Pipelines
+		pipesCut += r.Cut
 		if len(samples) < 4 {
 			samples = append(samples, r.Samples...)
 		}
@@ -421,19 +435,20 @@ func runC03() int {
 	mu, _ := cov["mutating_transitions"].(int)
 	ss, _ := cov["samples"].([]string)
 	out := map[string]interface{}{
-		"evaluations":          tr + runs,
-		"distinct_nontrivial":  mu + pipes,
-		"rule":                 fmt.Sprint(cov["rule"]) + "; plus every pipeline of <= the length bound over a 20-command alphabet through Manager.Handle, as one chunk and every two-chunk split: reply count, order and model agreement. Non-trivial = state-changing single commands + distinct pipelines",
-		"samples":              append(ss, samples...),
-		"exhaustive":           cov["exhaustive"],
-		"single_command_cases": tr,
-		"alphabet_size":        cov["alphabet_size"],
-		"pipelines":            pipes,
-		"pipeline_runs":        runs,
-		"pipeline_max_len":     plen,
-		"alias_probe_replies":  aliasN,
-		"subscriber_scripts":   subN,
-		"poisoned_states":      cov["poisoned_states"],
+		"evaluations":                        tr + runs,
+		"distinct_nontrivial":                mu + pipes,
+		"rule":                               fmt.Sprint(cov["rule"]) + "; plus every pipeline of <= the length bound over a 20-command alphabet through Manager.Handle, as one chunk and every two-chunk split: reply count, order and model agreement. Non-trivial = state-changing single commands + distinct pipelines",
+		"samples":                            append(ss, samples...),
+		"exhaustive":                         cov["exhaustive"] == true && pipesCut == 0,
+		"pipelines_cut_after_three_timeouts": pipesCut,
+		"single_command_cases":               tr,
+		"alphabet_size":                      cov["alphabet_size"],
+		"pipelines":                          pipes,
+		"pipeline_runs":                      runs,
+		"pipeline_max_len":                   plen,
+		"alias_probe_replies":                aliasN,
+		"subscriber_scripts":                 subN,
+		"poisoned_states":                    cov["poisoned_states"],
 	}
 	return rep.Finish(out, seqAssumptions)
 }
